@@ -4,6 +4,7 @@ import AdeuModel.Lemmas.Engine
 import AdeuModel.Lemmas.Grow
 import AdeuModel.Lemmas.ShownWith
 import AdeuModel.Lemmas.Threads
+import AdeuModel.Lemmas.NewComment
 /-
 C10 — comments requested with an edit or a reply are never lost or misattached (model-level clauses).
 -/
@@ -30,6 +31,17 @@ theorem C10_anchor_encloses (ns : List Node) (i j : Nat) (cid : Str) :
 example : attachCommentNodes [.other "a".toList, .other "del".toList, .other "ins".toList, .other "z".toList] 1 2 "7".toList =
     [.other "a".toList, .cs "7".toList, .other "del".toList, .other "ins".toList, .ce "7".toList,
      .run (crefRun "7".toList), .other "z".toList] := by decide
+
+/-- The comment the engine writes is the comment the reader reads (layers E + D): after `add_comment` the reader's comment
+map has an entry under the new id with exactly that text (stripped), the session's author, not resolved - whatever comments
+the document held before (an id clash included: the new entry is the last one; the threading pass changes `parent` only).
+With C10_comment_shown_with_* and C04_block_lists_anchored_comments: the requested comment text is rendered, under its id,
+in the metadata block behind the change it explains. -/
+theorem C10_new_comment_read_back (s : Sess) (text : Str) (parent : Option Str) :
+    ∃ dd, cmGet (commentsMap (s.addComment text parent).1.doc) (s.addComment text parent).2 = some dd ∧
+      (dd.text = stripStr Trim.pyIsSpace (([text].filter (!·.isEmpty)).flatten ++ ['\n']) ∧
+      dd.author = (truthy (some s.author)).getD "Unknown".toList ∧ dd.resolved = false) :=
+  addComment_read_back s text parent
 
 /-! ### shown with the change (reader model on what the engine writes) -/
 
